@@ -90,6 +90,12 @@ impl AnyMap {
     pub fn n_darts(&self) -> usize {
         both!(self, |m| m.n_darts())
     }
+    /// Counters the map reports about itself (dart count, removed-dart count, vertex count):
+    /// observable, and derived from the rest of the state only as long as the implementation
+    /// keeps them so.
+    pub fn derived(&self) -> [usize; 3] {
+        both!(self, |m| [m.n_darts(), m.n_unused_darts(), m.n_vertices()])
+    }
     pub fn n_unused(&self) -> usize {
         both!(self, |m| m.n_unused_darts())
     }
